@@ -613,10 +613,10 @@ Proof.
       * apply (bindings_of_snoc text d d1' start vi x cur); auto.
 Qed.
 
-Lemma short_range_ok : forall a e r, short_range a e = Ok r -> r = (a, e).
+Lemma ns_range_checked_ok : forall a e r, ns_range_checked a e = Ok r -> r = (a, e).
 Proof.
-  unfold short_range; intros a e r H.
-  destruct ((u32_max <? a) || (u32_max <? e)); [discriminate|]. inversion H; reflexivity.
+  unfold ns_range_checked; intros a e r H.
+  destruct (u32_max <? e); [discriminate|]. inversion H; reflexivity.
 Qed.
 
 (* scopes_refine: the element's range denotes own declarations followed by the inherited, not
@@ -637,10 +637,10 @@ Proof.
   intros text c r c' pnd pns own inherited Hok Hp Hk Hpe Hs Hinh Hu Hown H.
   unfold resolve_namespaces in H. rewrite Hp in H. cbn [bind] in H.
   assert (Hroot : pns = (0, 0) ->
-    (let! r0 := short_range (c_ns_start_idx c) (len_N (d_ns_tree (c_doc c))) in Ok (r0, c))
+    (let! r0 := ns_range_checked (c_ns_start_idx c) (len_N (d_ns_tree (c_doc c))) in Ok (r0, c))
       = Ok (r, c') ->
     ns_ok (c_doc c') /\ bindings_of text (c_doc c') r = Some (Scope.scope_of own inherited)).
-  { intros -> H0. inv_bind H0. apply short_range_ok in Hb. inversion Hk0; subst.
+  { intros -> H0. inv_bind H0. apply ns_range_checked_ok in Hb. inversion Hk0; subst.
     split; [assumption|]. cbn in Hinh. inversion Hinh; subst.
     unfold Scope.scope_of. cbn [filter]. rewrite app_nil_r. assumption. }
   destruct (nd_kind pnd) as [|ns_idx local attrs nss| | |]; auto.
@@ -657,7 +657,7 @@ Proof.
   - destruct pns as [pa pe]. cbn [fst snd] in *.
     apply bind_ok in H. destruct H as [d1 [Hb H]].
     apply bind_ok in H. destruct H as [r1 [Hsr H]].
-    apply short_range_ok in Hsr. inversion H; subst; clear H.
+    apply ns_range_checked_ok in Hsr. inversion H; subst; clear H.
     cbn [c_doc set_doc].
     unfold bindings_of in Hinh; cbn [fst snd] in Hinh.
     clear Hroot.
